@@ -220,7 +220,8 @@ def complex_defect_stratum(fam, terms):
 
 def key_registered(key):
     from harness.core import load_known
-    return any(k.get("property") == "C07" and k.get("key") == key and k.get("status") == "known" for k in load_known())
+    # "known": reported as KNOWN-FINDING; "fixed": repaired in /repo — a fixed entry suppresses nothing, the failure is an alarm again
+    return any(k.get("property") == "C07" and k.get("key") == key and k.get("status") in ("known", "fixed") for k in load_known())
 
 
 def term_charge(fam, names):
